@@ -49,7 +49,9 @@ HEAD_RE = None
 
 def merge_process_traces(d, procs):
     """trace.ndjson + trace1.ndjson ... -> trace.ndjson, group by group: the records of process k follow those of
-    process k-1 within each relational group, with case ids shifted by k*PROC_OFFSET and rel "ref" turned into "same"."""
+    process k-1 within each relational group, with case ids shifted by k*PROC_OFFSET and rel "ref" turned into "same".
+    Odd-numbered processes ran the groups in REVERSE order, so that every group is compared across two different process
+    histories (what ran before it): a result that depends on earlier calls differs between the two."""
     import re
     head = re.compile(r'^\{"ev":"(\w+)","case":(-?\d+),"g":(-?\d+)')
     per = []
@@ -69,6 +71,8 @@ def merge_process_traces(d, procs):
                 if ev == "Call" and (not groups or g == 0 or groups[-1][0] != g):
                     groups.append((g, []))
                 groups[-1][1].append(line)
+        if k % 2 == 1:
+            groups.reverse()      # odd processes ran the groups in reverse order (see run_layout_cases)
         per.append(groups)
     n = len(per[0])
     if any(len(p) != n for p in per):
@@ -114,8 +118,24 @@ def run_layout_cases(work, driver, props, cases, tag="main", budget_ms=2500, mem
         ab = core.run_cases(driver, "run", os.path.join(d, "cases.ndjson"), os.path.join(d, "trace.ndjson"),
                             budget_ms=budget_ms, mem_mb=mem_mb)
         for k in range(1, procs):
-            # the same cases again in a fresh process; merged group by group into one trace
-            ab += core.run_cases(driver, "run", os.path.join(d, "cases.ndjson"), os.path.join(d, "trace%d.ndjson" % k),
+            # the same cases again in a fresh process - odd processes with the groups in reverse order, so that each group
+            # has another history behind it; merged group by group into one trace
+            cpath = os.path.join(d, "cases.ndjson")
+            if k % 2 == 1:
+                with open(cpath) as fh:
+                    lines = fh.readlines()
+                blocks = []
+                for ln in lines:
+                    g = json.loads(ln).get("g", 0)
+                    if blocks and g != 0 and blocks[-1][0] == g:
+                        blocks[-1][1].append(ln)
+                    else:
+                        blocks.append((g, [ln]))
+                cpath = os.path.join(d, "cases_rev.ndjson")
+                with open(cpath, "w") as fh:
+                    for g, ls_ in reversed(blocks):
+                        fh.writelines(ls_)
+            ab += core.run_cases(driver, "run", cpath, os.path.join(d, "trace%d.ndjson" % k),
                                  budget_ms=budget_ms, mem_mb=mem_mb)
         if procs > 1:
             merge_process_traces(d, procs)
